@@ -2,22 +2,68 @@
 from ..runner import Job
 
 W = 16
+T = "c18_silk_sideinfo"
 
 
 def jobs(tier):
     q = tier == "quick"
+    # The enumerated families are small enough (16 364 cases, 1.64e7 library calls, ~30 core-seconds under
+    # ASan) to be walked completely in both tiers; maxtime is only a safety cap for a loaded machine.
     return [
-        Job("c18_silk_sideinfo", "flt-asan", "enumerate", workers=W, enum_stride=4 if q else 1, maxtime=40 if q else 600),
-        Job("c18_silk_sideinfo", "flt-asan", "random", workers=W, cases=20000 if q else 400000, maxtime=40 if q else 500),
+        Job(T, "flt-asan", "enumerate", workers=W, enum_stride=1, maxtime=300 if q else 900),
+        Job(T, "flt-asan", "random", workers=W, cases=12000 if q else 500000, maxtime=240 if q else 1500),
     ]
 
 
 PROP = dict(
     jobs=jobs,
-    rule="TBD",
-    required_labels={"any": {}},
-    exhaustive_parts={"thorough": [], "quick": []},
-    assumptions=[],
+    rule="cases = (a) enumerated blocks of NLSF index vectors (stage-1 vector x residual pattern), gain (previous index, conditional) pairs "
+         "and pitch (rate, sub-frames, contour) triples, each looping over its inner index range; (b) generated single index vectors, decoder "
+         "histories through silk_decode_parameters (packets of 1-3 frames, rate / frame-size switches, concealed frames before a packet, "
+         "interpolation factors 0..4), range-decoded random payloads through silk_decode_indices, gain-index chains, pitch indices, and "
+         "encoder round trips (silk_gains_quant; silk_process_NLSFs vs silk_decode_parameters). Non-trivial = a protective mechanism was "
+         "exercised (NLSF stabiliser or Q15 clamp active by the RFC reconstruction model, LPC output differs from the double-precision "
+         "conversion by more than the tolerance = bandwidth expansion / 16-bit fit, gain index limited or double-stepped, lag clamped) or the "
+         "case carries inter-frame history (interpolated LPC, LPC after loss, rate switch, voiced range-decoded frames) or an NLSF round trip; "
+         "distinct = hash of the index vector / block parameters (byte string for histories).",
+    required_labels={"any": {
+        T + "/family:enum-nb-block": 7776, T + "/family:enum-wb-block": 8192, T + "/family:enum-single-coefficient": 64,
+        T + "/family:enum-gains": 128, T + "/family:enum-pitch": 106,
+        T + "/nlsf-stabiliser-active": 2000, T + "/nlsf-clipped-to-q15-range": 2000, T + "/lpc-bandwidth-expanded-or-fitted": 2000,
+        T + "/lpc-compared-with-double-model": 1000, T + "/interpolated-lpc": 400, T + "/lpc-after-loss": 400, T + "/rate-switch": 400,
+        T + "/gain-index-limited": 2000, T + "/gain-double-step": 500, T + "/lag-clamped": 500, T + "/bitstream-voiced": 500,
+        T + "/bitstream-delta-lag": 50, T + "/family:rt-nlsf": 1000, T + "/rt-nlsf-interpolated": 100, T + "/family:rt-gains": 500,
+        T + "/family:gain-chain": 500}},
+    exhaustive_parts={
+        "thorough": [
+            "NLSF NB/MB codebook: all 32 stage-1 vectors x all residual vectors in {-10,0,10}^10 (1 889 568 vectors): decode, NLSF2A, inverse gain",
+            "NLSF WB codebook: all 32 stage-1 vectors x all sign patterns of the all-extreme residual {-10,10}^16 (2 097 152 vectors)",
+            "both codebooks: all 32 stage-1 vectors x each coefficient at every value -10..10 with the others zero (17 472 vectors)",
+            "gains: all 64 previous indices x {independent: 64, delta: 41} first indices x all 41 second delta indices (one-step transitions are "
+            "complete, so closure of [0,63] under chains of any length follows by induction); all 64 levels monotone",
+            "pitch: {8,12,16} kHz x {2,4} sub-frames x every contour index x lag index -64..600 (bit-stream reachable range is -16..16*fs+21)"],
+        "quick": ["identical to thorough (the enumeration costs about 30 core-seconds)"]},
+    assumptions=[
+        "Index alphabets: stage-1 index 0..31, residuals -10..10, gain index 0..63 / delta 0..40, lag index -16..16*fs+21, contour < table size, "
+        "interpolation factor 0..4 (4 for 10 ms frames). The bit-stream family checks that silk_decode_indices cannot deliver anything else.",
+        "The independent models transcribe RFC 6716 4.2.7.4-4.2.7.6 (Table 25 spacing, contour tables 33-36, gain recursion, residual "
+        "de-quantisation); codebook tables (stage-1 vectors, weights, predictor, cosine table) are read from the tree as inputs.",
+        "LPC accuracy is compared with a double-precision conversion only inside a calibrated well-conditioned region (calib/C18.json); "
+        "stability, gain bound and the library's own inverse-gain verdict are checked for every vector.",
+        "Encoder round trip uses NLSF targets near codebook-reachable points (gap floor 48, noise <= 100): for far-off targets with "
+        "near-coincident NLSFs silk_NLSF_del_dec_quant's int32 rate-distortion accumulator overflows, which is outside this property.",
+        "silk_decode_parameters runs on a constructed silk_decoder_state (silk_init_decoder + silk_decoder_set_fs), with the per-frame state "
+        "updates of silk_decode_frame (lossCnt, first_frame_after_reset, prevSignalType) applied by the harness."],
 )
 
-TEXT = dict(technique="TBD", level="TBD", note="TBD")
+TEXT = dict(
+    technique="property-based testing of the SILK de-quantisers at their internal entry points: exhaustive enumeration of the finite index "
+              "families + generated decoder histories, against independent models (RFC reconstruction arithmetic, double-precision step-down "
+              "stability test and NLSF->LPC conversion, RFC gain recursion and pitch contour tables) and encoder/decoder round trips",
+    level="Exhaustive for the listed NLSF residual-extreme families, all one-step gain transitions and all pitch index combinations (both "
+          "tiers); exploration (seeded random, 1.9e5 cases quick / 8e6 thorough) for the remaining residual grid, interpolated vectors, "
+          "multi-frame histories and round trips.",
+    note="Trusted: targets/c18_model.hpp (double-precision step-down and polynomial product, RFC table transcriptions), the range decoder "
+         "used by the bit-stream family (C08), ASan/UBSan/assertions. LPC stability is judged on the Q12 coefficients exactly as the "
+         "synthesis filter uses them.",
+)
